@@ -38,27 +38,37 @@ Widen(m, lo, hi) == MkMap(lo, hi, [k \in lo..hi |-> IF k >= m.nmin /\ k <= m.nma
 CONSTANTS Ids,            \* map identifiers
           Extents,        \* set of <<lo, hi>> a map may start with
           MaxOcc          \* bound on the number of Occupy steps
-VARIABLES maps, before, phase, nocc
-vars == <<maps, before, phase, nocc>>
+VARIABLES maps, before, phase, nocc, post
+vars == <<maps, before, phase, nocc, post>>
 
 Init  == /\ maps \in [Ids -> {MkMap(e[1], e[2], [k \in e[1]..e[2] |-> "F"]) : e \in Extents}]
-         /\ before = maps /\ phase = "built" /\ nocc = 0
+         /\ before = maps /\ phase = "built" /\ nocc = 0 /\ post = [o \in Ids |-> <<>>]
 Occupy(o, a, b) == /\ phase = "built" /\ nocc < MaxOcc
                    /\ a >= maps[o].nmin /\ b <= maps[o].nmax /\ a <= b
                    /\ maps' = [maps EXCEPT ![o].val = [i \in 1..Len(@) |-> IF maps[o].idx[i] \in a..b THEN "O" ELSE @[i]]]
-                   /\ before' = maps' /\ nocc' = nocc + 1 /\ UNCHANGED phase
+                   /\ before' = maps' /\ nocc' = nocc + 1 /\ UNCHANGED <<phase, post>>
+\* an assignment made AFTER the alignment lands at its own index on the widened axis (Bitmap.geti)
+OccupyAfter(o, a, b) == /\ phase = "aligned" /\ nocc < MaxOcc
+                        /\ a >= maps[o].nmin /\ b <= maps[o].nmax /\ a <= b
+                        /\ maps' = [maps EXCEPT ![o].val = [i \in 1..Len(@) |-> IF maps[o].idx[i] \in a..b THEN "O" ELSE @[i]]]
+                        /\ post' = [post EXCEPT ![o] = Append(@, <<a, b>>)]
+                        /\ nocc' = nocc + 1 /\ UNCHANGED <<phase, before>>
 Align == /\ phase = "built"
          /\ LET lo == SetMin({maps[o].nmin : o \in Ids})
                 hi == SetMax({maps[o].nmax : o \in Ids})
             IN maps' = [o \in Ids |-> Widen(maps[o], lo, hi)]
-         /\ phase' = "aligned" /\ UNCHANGED <<before, nocc>>
-Next == Align \/ \E o \in Ids : \E a, b \in SetMin({e[1] : e \in Extents})..SetMax({e[2] : e \in Extents}) : Occupy(o, a, b)
+         /\ phase' = "aligned" /\ UNCHANGED <<before, nocc, post>>
+Next == Align \/ \E o \in Ids : \E a, b \in SetMin({e[1] : e \in Extents})..SetMax({e[2] : e \in Extents}) :
+                     Occupy(o, a, b) \/ OccupyAfter(o, a, b)
 
 \* clauses of C15 about alignment
 AxesOk            == \A o \in Ids : IsMap(maps[o]) /\ AxisOk(maps[o])
 SameExtentAfter   == phase = "aligned" => \A o, p \in Ids : maps[o].nmin = maps[p].nmin /\ maps[o].nmax = maps[p].nmax
 CoversAll         == phase = "aligned" => \A o, p \in Ids : maps[o].nmin <= before[p].nmin /\ maps[o].nmax >= before[p].nmax
-OccupancyKept     == phase = "aligned" => \A o \in Ids : \A k \in before[o].nmin..before[o].nmax : ValAt(maps[o], k) = ValAt(before[o], k)
+PostSet(o)        == UNION {(post[o][j][1])..(post[o][j][2]) : j \in 1..Len(post[o])}
+OccupancyKept     == phase = "aligned" => \A o \in Ids : \A k \in before[o].nmin..before[o].nmax :
+                          ValAt(maps[o], k) = IF k \in PostSet(o) THEN "O" ELSE ValAt(before[o], k)
+PostLandsAtItsIndex == phase = "aligned" => \A o \in Ids : \A k \in PostSet(o) : ValAt(maps[o], k) = "O"
 AddedNotFree      == phase = "aligned" => \A o \in Ids : \A k \in maps[o].nmin..maps[o].nmax :
                           (k < before[o].nmin \/ k > before[o].nmax) => ValAt(maps[o], k) # "F"
 ==============================================================================
